@@ -54,10 +54,10 @@ def read_decimal(data, writer_schema=None, reader_schema=None):
 
     unscaled_datum = int.from_bytes(data, byteorder="big", signed=True)
 
-    decimal_context.prec = precision
-    return decimal_context.create_decimal(unscaled_datum).scaleb(
-        -scale, decimal_context
-    )
+    # A context of its own for every call: setting the precision on a shared
+    # module-level context is not safe when several threads read decimals
+    context = Context(prec=precision)
+    return context.create_decimal(unscaled_datum).scaleb(-scale, context)
 
 
 def read_time_millis(data, writer_schema=None, reader_schema=None):
